@@ -3,7 +3,7 @@ import { mulberry32, ModuleBuilder, held, violated, inconclusive, short, optLabe
 import { A, C, renderElement, isComponentTag } from '../runtime/spec.mjs';
 import { evalSemantic, firstDiff, eraseHints, effectiveOptions } from './semantic.mjs';
 import { makeAttr, newAttrState, makeTag, TAG_FORMS } from './elem.mjs';
-import { makeKids, makeVSlots, wrapContext } from './C03.mjs';
+import { makeKids, makeVSlots, wrapContext, buildLoop, checkLoopVariant, HOSTS, VSLOTS, LOOP_CONTEXTS } from './C03.mjs';
 import { makeDirective, SPELLINGS } from './C04.mjs';
 import { makeModel, hostOf } from './C05.mjs';
 
@@ -80,6 +80,12 @@ for (const mergeProps of [true, false]) for (const transformOn of [false, true])
 export function* generate({ tier, seed }) {
   const rng = mulberry32(seed * 15485863 + 17);
   const n = tier === 'quick' ? 25000 : 500000;
+  // the enclosing JSX expression evaluated several times (loop body / callback): once per evaluation, each to its own vnode
+  let li = 0;
+  for (const host of HOSTS) for (const ctx of LOOP_CONTEXTS) for (const vs of VSLOTS) {
+    const c = buildLoop(host, ctx, vs);
+    yield { gid: `C11-loop-${li++}`, src: c.src, syntax: 'jsx', spec: c.spec, feature: `loop|${host}|${ctx}|${vs}`, variants: [true, false].map((e, k) => ({ vid: `v${k}`, options: { enableObjectSlots: e, optimize: k === 0 } })) };
+  }
   for (let i = 0; i < n; i++) {
     const c = rng.bool(0.12) ? buildModelCase(rng) : build(rng);
     if (!c) continue;
@@ -118,6 +124,7 @@ export async function check(group, records) {
     const base = { gid: group.gid, vid: v.vid, feature: `${group.feature}|${optLabel(v.options)}`, nontrivial: true };
     if (!rec || rec.status !== 'ok') { out.push(inconclusive({ ...base, reason: `transform status ${rec && rec.status}` })); continue; }
     if (rec.n_err > 0) { out.push(violated({ ...base, oracle: 'no-diagnostic-on-valid-input', sig: `C11/unexpected-diagnostic/${short(rec.diags[0].msg, 50)}`, detail: rec.diags })); continue; }
+    if (spec.loop) { out.push(await checkLoopVariant('C11', spec, rec, v, base)); continue; }
     const live = (r) => {
       const e = r.thunks[0];
       if (e.B.error) return inconclusive({ ...base, reason: 'reference failed: ' + short(e.B.error) });
@@ -163,7 +170,7 @@ export async function check(group, records) {
 
 export function meta({ tier }) {
   return {
-    rule: 'Random elements (seeded): tag form (7) x 0-5 attribute items drawn from 24 kinds whose leaves are logging probes (unbound identifiers with logging getters, logging proxies, logging functions) incl. spreads, repeated class/style/listeners, on/nativeOn objects, directives, v-slots x child shape (14) x runtime kind (5) x context, plus v-model cases; under random option sets from the 16 combinations of {mergeProps, transformOn, enableObjectSlots, optimize}. Oracles: multiset equality of creation traces (exactly once), order equality on the projection to plain-attribute/spread/child probes, equality of per-invocation slot traces (each slot invoked twice). distinct_nontrivial = distinct (tag form, item kinds, child shape/kind, context, options) with >= 1 probe event.',
+    rule: 'Random elements (seeded): tag form (7) x 0-5 attribute items drawn from 24 kinds whose leaves are logging probes (unbound identifiers with logging getters, logging proxies, logging functions) incl. spreads, repeated class/style/listeners, on/nativeOn objects, directives, v-slots x child shape (14) x runtime kind (5) x context, plus v-model cases, plus the C03 loop families (the JSX evaluated three times in a for-of / while / map callback, also after an earlier temporary in the same list: the k-th evaluation must deliver the k-th value of its call child to its own vnode); under random option sets from the 16 combinations of {mergeProps, transformOn, enableObjectSlots, optimize}. Oracles: multiset equality of creation traces (exactly once), order equality on the projection to plain-attribute/spread/child probes, equality of per-invocation slot traces (each slot invoked twice). distinct_nontrivial = distinct (tag form, item kinds, child shape/kind, context, options) with >= 1 probe event.',
     assumptions: ['position of directive values/arguments, v-slots values and v-model reads relative to props is not constrained', 'with mergeProps on a repeated class/style/on* attribute is expected at the position of its first occurrence within its run of non-spread attributes'],
   };
 }
